@@ -2,7 +2,7 @@
    ast_laue_sysabs: AST-translated from laue.py (equal to the tools version, C14); segm_laue / segm_tools: literals of genhkl_base;
    all_settings: the 237 tables; model/Traverse.v: hand model of the traversal, tied by in-Coq evaluation against the implementation. *)
 From Coq Require Import ZArith List Bool String.
-From XV Require Import SGroup HklModel Traverse Tab_segm Ast_laue Tab_sg_all P05 P05_complete P06_fd P05_cov_all P06_fd_main P05_all.
+From XV Require Import SGroup HklModel Traverse Tab_segm Ast_laue Tab_sg_all P05 P05_complete P06_fd P05_cov_all P06_fd_main P05_all P05_nodup P05_qinv P05_final P05_extinv P05_box.
 Open Scope Z_scope.
 
 (* on the traversal's asymmetric unit (box [-7,7]^3, all 237 settings): sysabs = 0  <->  no operation (R,t) has hR = h with h.t non-integer *)
@@ -77,8 +77,73 @@ Theorem C05_none_missed_where_monotone : forall s, In s all_settings -> forall L
   forall G Tmin Tmax Tterm allowed, Tmax <= Tterm ->
   (forall seg, In seg segs -> gram_ok G seg = true) ->
   (forall R h, In R L -> qform G (vmZ h R) = qform G h) ->
-  (forall R h, In R L -> allowed (vmZ h R) = allowed h) ->
+  (forall R h, In R L -> qform G h <= Tmax -> allowed (vmZ h R) = allowed h) ->
   forall fuel reps, all_segments G Tmin Tmax Tterm allowed fuel segs = Some reps ->
   forall h, h <> (0, 0, 0) -> allowed h = true -> Tmin < qform G h <= Tmax -> In h (flat_map (expand rots) reps).
 Proof. exact all_rows_complete. Qed.
 Print Assumptions C05_none_missed_where_monotone.
+
+(* none repeated: the rows of the traversal and the list produced by the model of genhkl_all are duplicate-free, for every setting, metric and shell *)
+Theorem C05_representatives_listed_once : forall s, In s all_settings -> forall L segs rots,
+  all_mats (firstn (Z.to_nat (sg_nuniq s)) (sg_rot s)) = Some rots -> L = (rots ++ map mnegZ rots)%list ->
+  lookup_segm segm_laue (sg_laue s) (sg_choice s) = Some segs ->
+  forall G Tmin Tmax Tterm allowed fuel reps, all_segments G Tmin Tmax Tterm allowed fuel segs = Some reps -> NoDup reps.
+Proof. exact reps_nodup. Qed.
+Print Assumptions C05_representatives_listed_once.
+Theorem C05_reflections_listed_once : forall s, In s all_settings -> forall L segs rots,
+  all_mats (firstn (Z.to_nat (sg_nuniq s)) (sg_rot s)) = Some rots -> L = (rots ++ map mnegZ rots)%list ->
+  lookup_segm segm_laue (sg_laue s) (sg_choice s) = Some segs ->
+  forall G Tmin Tmax Tterm allowed fuel reps, all_segments G Tmin Tmax Tterm allowed fuel segs = Some reps -> NoDup (flat_map (expand rots) reps).
+Proof. exact all_rows_nodup. Qed.
+Print Assumptions C05_reflections_listed_once.
+(* exactly the allowed reflections of the shell, each once - where the traversal is monotone *)
+Theorem C05_exactly_the_allowed_reflections_where_monotone : forall s L segs rots G Tmin Tmax Tterm allowed fuel reps,
+  In s all_settings -> all_mats (firstn (Z.to_nat (sg_nuniq s)) (sg_rot s)) = Some rots -> L = (rots ++ map mnegZ rots)%list ->
+  lookup_segm segm_laue (sg_laue s) (sg_choice s) = Some segs ->
+  0 <= Tmin -> Tmax <= Tterm -> (forall seg, In seg segs -> gram_ok G seg = true) ->
+  (forall R h, In R L -> qform G (vmZ h R) = qform G h) -> (forall R h, In R L -> qform G h <= Tmax -> allowed (vmZ h R) = allowed h) ->
+  all_segments G Tmin Tmax Tterm allowed fuel segs = Some reps ->
+  NoDup (flat_map (expand rots) reps) /\
+  forall h, In h (flat_map (expand rots) reps) <-> (allowed h = true /\ Tmin < qform G h <= Tmax).
+Proof. exact all_rows_exact. Qed.
+Print Assumptions C05_exactly_the_allowed_reflections_where_monotone.
+
+(* the same with the metric hypotheses discharged: every setting of the orthorhombic, tetragonal, cubic and hexagonal-axes systems (and
+   orthogonal monoclinic / triclinic metrics), every conforming reciprocal metric (monotone_system), any shell *)
+Theorem C05_exactly_the_allowed_reflections_in_monotone_systems : forall s L segs rots G Tmin Tmax Tterm allowed fuel reps,
+  In s all_settings -> all_mats (firstn (Z.to_nat (sg_nuniq s)) (sg_rot s)) = Some rots -> L = (rots ++ map mnegZ rots)%list ->
+  lookup_segm segm_laue (sg_laue s) (sg_choice s) = Some segs ->
+  (sg_choice s = "standard" \/ sg_choice s = "hexagonal")%string -> monotone_system (sg_laue s) (sg_choice s) G ->
+  0 <= Tmin -> Tmax <= Tterm -> (forall R h, In R L -> qform G h <= Tmax -> allowed (vmZ h R) = allowed h) ->
+  all_segments G Tmin Tmax Tterm allowed fuel segs = Some reps ->
+  NoDup (flat_map (expand rots) reps) /\
+  forall h, In h (flat_map (expand rots) reps) <-> (allowed h = true /\ Tmin < qform G h <= Tmax).
+Proof. exact exact_in_monotone_systems. Qed.
+Print Assumptions C05_exactly_the_allowed_reflections_in_monotone_systems.
+Theorem C05_monotone_setting_exists : exists s, In s all_settings /\ sg_no s = 62 /\ (sg_choice s = "standard")%string /\
+  monotone_system (sg_laue s) (sg_choice s) (mkMet 7 11 13 0 0 0).
+Proof. exact monotone_setting_exists. Qed.
+Print Assumptions C05_monotone_setting_exists.
+
+(* with the real reflection conditions: the traversal is run with sysabs (AST-translated from the source) and the result is characterised by
+   operator extinction.  For every setting of the monotone systems, every conforming metric and every shell that fits in the box [-7,7]^3
+   (Hbox), the model of genhkl_all lists exactly the reflections that no operation of the group extinguishes, each once.  The two finite facts
+   used (sysabs = not extinct on the asymmetric unit, extinction constant on Laue orbits of representatives) are kernel computations over the box. *)
+Theorem C05_extinction_constant_on_orbits_box : forallb (ext_inv_ok 7) all_settings = true.
+Proof. exact ext_inv_all. Qed.
+Print Assumptions C05_extinction_constant_on_orbits_box.
+Theorem C05_exact_with_real_sysabs_in_box : forall s, In s all_settings -> forall ops L segs rots,
+  ops_of (sg_rot s) (sg_trans s) = Some ops ->
+  all_mats (firstn (Z.to_nat (sg_nuniq s)) (sg_rot s)) = Some rots -> L = (rots ++ map mnegZ rots)%list ->
+  lookup_segm segm_laue (sg_laue s) (sg_choice s) = Some segs ->
+  forall G Tmin Tmax Tterm, (sg_choice s = "standard" \/ sg_choice s = "hexagonal")%string -> monotone_system (sg_laue s) (sg_choice s) G ->
+  0 <= Tmin -> Tmax <= Tterm ->
+  (forall x y z, qform G (x, y, z) <= Tmax -> (-7 <= x <= 7) /\ (-7 <= y <= 7) /\ (-7 <= z <= 7)) ->
+  forall fuel reps, all_segments G Tmin Tmax Tterm (allowedS s) fuel segs = Some reps ->
+  NoDup (flat_map (expand rots) reps) /\
+  forall h, In h (flat_map (expand rots) reps) <-> (extinct ops h = false /\ Tmin < qform G h <= Tmax).
+Proof. exact exact_with_real_sysabs. Qed.
+Print Assumptions C05_exact_with_real_sysabs_in_box.
+Theorem C05_box_hypothesis_satisfiable : forall x y z, qform (mkMet 7 11 13 0 0 0) (x, y, z) <= 300 -> (-7 <= x <= 7) /\ (-7 <= y <= 7) /\ (-7 <= z <= 7).
+Proof. exact box_hypothesis_satisfiable. Qed.
+Print Assumptions C05_box_hypothesis_satisfiable.
